@@ -33,6 +33,11 @@ nx = lambda a, b, l: l.startswith('exc:')
 
 def check(run):
     R = run
+    R.rule('C02.shared', 'objects created once per class / per function definition (class-level attributes, parameter '
+           'defaults) are only read: no buffer, validator, poll object, header list or option dict is shared between '
+           'connections', 2)
+    from .common import shared_state
+    shared_state(R, 'C02.shared')
     R.rule('C02.P1a', 'fixed-count reads: chunk appended to the persistent buffer, outstanding count stored back when '
                       'short, coroutine resumed only at zero with a copy of the accumulated bytes', 6)
     R.rule('C02.P1b', 'read-until: search on the accumulated buffer after appending the chunk; bytes after the terminator '
@@ -54,6 +59,14 @@ def check(run):
         C05.loop(R)
     nosnapshot(R)
     p3(R)
+    complete(R)
+    geometry(R)
+    from . import C14
+    with R.as_rule('C02.P3'):
+        # the reaction to an event (the automatic Pong) is per event, not per read
+        C14.before(R)
+        C14.branch(R)
+        C14.only(R)
     C01.alias(R, RID='C02.alias')
 
 
@@ -292,3 +305,123 @@ def p3(R):
                         bad.append(n)
     R.ob('C02.P3', 'run() uses the chunk only for the EOF test and the hand-off', not bad,
          'run() inspects the received chunk in `%s`' % (bad[0].text()[:60] if bad else ''), func=q, node=(bad[0].ast if bad else None))
+
+
+def complete(R):
+    """The rest of a read is never dropped while the connection lives: the loops that pull the next layer's generator
+    are left early only once the WebSocket is closed (after which feed() ignores every later chunk as well), so what is
+    delivered cannot depend on which bytes happened to share a read."""
+    from .common import guard_atom_sets
+    # WebSocket.feed over stream.feed
+    q = WS + '.feed'
+    g = R.cfg(q)
+    loops = [n for n in g.live_nodes() if n.kind == 'for' and any(
+        isinstance(t, str) and t.startswith('gen:stream.WebsocketStream.feed') for t in R.types.expr(n.ast.iter, g.ctx))]
+    need(len(loops) == 1, 'WebSocket.feed: loop over stream.feed(data) not found')
+    lp = loops[0]
+    body = [n for n in g.live_nodes() if any(fr.kind == 'loop' and fr.stmt is lp.ast for fr in n.frames)]
+    disc = [n for (n, _) in calls_to(R, g, WS + '.on_disconnect')]
+    n_exits = 0
+    for n in body:
+        if n.kind != 'stmt' or not isinstance(n.ast, (ast.Break, ast.Return)):
+            continue
+        if isinstance(n.ast, ast.Break) and [fr for fr in n.frames if fr.kind == 'loop'][-1].stmt is not lp.ast:
+            continue
+        n_exits += 1
+        lits = set()
+        for forms in guard_atom_sets(g, n):
+            lits |= set(forms)
+        ok = ('self.is_closed', True) in lits or ('self.state.closed', True) in lits or \
+            (bool(disc) and all_paths_pass(g, succs(lp, 'body'), disc, [n], skip_edge=nx))
+        R.ob('C02.P3', 'message loop left early only when closed', ok,
+             'WebSocket.feed abandons the rest of the current read at `%s` while the connection is not closed: bytes that '
+             'share a read with what precedes are dropped (and the abandoned parser re-delivers its pending unit), bytes '
+             'in a later read are not' % n.text()[:40], func=q, node=n.ast)
+    R.ob('C02.P3', 'message loop early exits found', n_exits >= 1, '%d early exits' % n_exits, func=q, node=lp.ast,
+         construct='message loop exits')
+    # run() over WebSocket.feed: never left early
+    q2 = S + '.run'
+    g2 = R.cfg(q2)
+    loops2 = [n for n in g2.live_nodes() if n.kind == 'for' and any(
+        isinstance(t, str) and t.startswith('gen:' + WS + '.feed') for t in R.types.expr(n.ast.iter, g2.ctx))]
+    need(len(loops2) == 1, 'run(): loop over websocket.feed(data) not found')
+    lp2 = loops2[0]
+    bad = [n for n in g2.live_nodes() if n.kind == 'stmt' and isinstance(n.ast, (ast.Break, ast.Return))
+           and any(fr.kind == 'loop' and fr.stmt is lp2.ast for fr in n.frames)
+           and (isinstance(n.ast, ast.Return) or [fr for fr in n.frames if fr.kind == 'loop'][-1].stmt is lp2.ast)]
+    R.ob('C02.P3', 'run() consumes every event of a read', not bad,
+         'run() leaves the loop over websocket.feed(data) early at `%s`' % (bad[0].text()[:40] if bad else ''), func=q2,
+         node=(bad[0].ast if bad else lp2.ast), construct='event loop early exit')
+    # stream.feed over the parser: returns only on exhaustion
+    q3 = 'stream.WebsocketStream.feed'
+    g3 = R.cfg(q3)
+    bad = []
+    for n in g3.live_nodes():
+        if n.kind == 'stmt' and isinstance(n.ast, (ast.Return, ast.Break)):
+            hs = [fr for fr in n.frames if fr.kind == 'handler']
+            if not (hs and 'StopIteration' in U(hs[-1].stmt.type if hs[-1].stmt.type is not None else '')):
+                bad.append(n)
+    R.ob('C02.P3', 'stream.feed stops only when the parser is exhausted', not bad,
+         'stream.feed stops at `%s` with frames of the current read still unparsed' % (bad[0].text()[:40] if bad else ''),
+         func=q3, node=(bad[0].ast if bad else None), construct='stream.feed early exit')
+
+
+def geometry(R):
+    """Error texts raised by the incremental parser layer do not mention read-geometry quantities (positions, chunk and
+    buffer lengths, outstanding counts): they travel into ProtocolError events, whose payload would then depend on
+    where the stream was cut.  Allowed operands: constants and fields of self that are written only in __init__; locals
+    are followed through their reaching definitions."""
+    from .common import stores_in_package, g_rd
+    n_sites = 0
+    for key, cx in sorted(R.types.ctxs.items(), key=lambda kv: str(kv[0])):
+        fi = cx.func
+        if fi.module.name != 'parser' or (fi.cls is not None and cx.recv != fi.cls.qual):
+            continue
+        if not any(isinstance(c, ast.Call) and U(c.func).endswith('Error') for c in own_nodes(fi.node)):
+            continue
+        g = R.cfg(fi.qual, cx.recv)
+        rd = g_rd(g)
+
+        def geo(node, e, depth, seen):
+            out = []
+            for x in walk_no_nested(e):
+                if isinstance(x, ast.Name) and x.id == 'len' and isinstance(x.ctx, ast.Load):
+                    out.append('len(...)')
+                elif isinstance(x, ast.Name) and isinstance(x.ctx, ast.Load) and x.id != 'self':
+                    ds = rd.defs_at(node, x.id)
+                    for d in ds:
+                        if d is g.entry:
+                            out.append('parameter ' + x.id)
+                            continue
+                        if d.kind in ('handler',):
+                            continue
+                        if (d.id, x.id) in seen:
+                            continue
+                        seen.add((d.id, x.id))
+                        v = rd.value_of_def(d, x.id)
+                        if v is None or depth <= 0:
+                            out.append('local ' + x.id)
+                        else:
+                            out += geo(d, v, depth - 1, seen)
+                elif isinstance(x, ast.Attribute) and isinstance(x.value, ast.Name) and x.value.id == 'self' \
+                        and isinstance(x.ctx, ast.Load):
+                    writers = set(c2.func.name for (c2, s_, t_, v_) in stores_in_package(R, x.attr)
+                                  if c2.func.cls is not None and fi.cls is not None and c2.func.cls.qual in R.prog.mro(fi.cls.qual))
+                    if writers - {'__init__'}:
+                        out.append('self.' + x.attr)
+            return out
+        for n in g.live_nodes():
+            for c in n.calls:
+                f = c.func
+                nm = f.id if isinstance(f, ast.Name) else f.attr if isinstance(f, ast.Attribute) else ''
+                if not nm.endswith('Error'):
+                    continue
+                n_sites += 1
+                bad = []
+                for a in list(c.args) + [k.value for k in c.keywords]:
+                    bad += geo(n, a, 4, set())
+                R.ob('C02.P3', 'error text at %s is cut-independent' % fi.qual, not bad,
+                     'the text of the error raised in %s mentions %s, which depends on how the stream was split into reads; '
+                     'it is reported in the ProtocolError event' % (fi.qual, sorted(set(bad))), func=fi, node=c,
+                     construct='error text mentions %s' % sorted(set(bad)))
+    need(n_sites >= 4, 'parser module: expected at least 4 error construction sites, found %d' % n_sites)
